@@ -192,7 +192,15 @@ Inductive out :=
 | OSize (n : Z)
 | OKeys (ks : list bytes).
 
-(* one block through ShouldPut + LdWrite + InsertNoReplace *)
+(* one block through ShouldPut + LdWrite + InsertNoReplace.
+   A failed LdWrite that got some bytes of the section out (fix: C16-discard-partial-section):
+   - seekable data writer (blockstore, storage on a WriterAt): OffsetWriteSeeker.Rewind truncates
+     the backing file at the section start and moves the writer back there (the backing objects
+     of the model can always truncate: *os.File);
+   - plain io.Writer: the bytes cannot be taken back, the store records a sticky write error
+     (StorageCar.writeErr) and refuses every later Put and Finalize.  For the storage kinds the
+     model keeps that flag in ws_finalized, which StorageCar does not otherwise use.
+   Nothing written (error with 0 bytes on the first call): state unchanged. *)
 Definition put_one (s : wstate) (c d : bytes) (p : cidp) : wstate * out :=
   let o := ws_opts s in
   match should_put o (ws_idx s) c p with
@@ -203,7 +211,11 @@ Definition put_one (s : wstate) (c d : bytes) (p : cidp) : wstate * out :=
     let '(dv, abs, ok) := write_chunks (ws_dev s) (data_base o + n) (ld_chunks [c; d]) in
     let s1 := set_dev s dv (abs - data_base o) in
     if ok then (set_idx s1 (ii_insert (mkrec c (c_mhcode p) (c_digest p) n) (ws_idx s1)), ONil)
-    else (s1, OErr EOther)
+    else if abs =? data_base o + n then (s1, OErr EOther)
+    else match ws_kind s with
+         | KStorage false => (set_flags s1 (ws_closed s1) true, OErr EOther)
+         | _ => (set_dev s (dev_truncate dv (data_base o + n)) n, OErr EOther)
+         end
   end.
 
 Fixpoint put_many_loop (s : wstate) (blks : list (bytes * bytes)) : wstate * out :=
@@ -230,7 +242,9 @@ Definition bs_put_many (s : wstate) (blks : list (bytes * bytes)) : wstate * out
 Definition st_put (s : wstate) (c d : bytes) : wstate * out :=
   match cid_parse c with
   | None => (s, OErr EOther)                     (* bad CID key *)
-  | Some p => if ws_closed s then (s, OErr EClosed) else put_one s c d p
+  | Some p => if ws_closed s then (s, OErr EClosed)
+              else if ws_finalized s then (s, OErr EOther)   (* sticky write error *)
+              else put_one s c d p
   end.
 
 (* ---- queries ----------------------------------------------------------------------------------- *)
@@ -346,7 +360,8 @@ Definition bs_discard (s : wstate) : wstate * out := (set_flags s true (ws_final
 (* StorageCar.Finalize (repaired: the CARv1 branch used to return without closing;
    notes/fixes/C04-storage-v1-finalize-closes.patch) *)
 Definition st_finalize (s : wstate) : wstate * out :=
-  if ws_closed s then (s, OErr EOther)
+  if ws_finalized s then (set_flags s true true, OErr EOther)   (* sticky write error (C16): reported, and the store is closed *)
+  else if ws_closed s then (s, OErr EOther)
   else if w_v1 (ws_opts s) then (set_flags s true (ws_finalized s), ONil)
   else store_finalize (set_flags s true (ws_finalized s)).
 
